@@ -258,12 +258,14 @@ func cmdCheck(args []string) int {
 			for k, l := range labels {
 				h := r.Covers[l]
 				dir := filepath.Join(outDir, fmt.Sprintf("%s-witness-%d", spec.Name, k))
-				res := nativeReplay(spec, dir, h.Values, h.Choices, r.Bounds.Params)
+				wspec := *spec
+				wspec.ReplayRepeat = 0
+				res := nativeReplay(&wspec, dir, h.Values, h.Choices, r.Bounds.Params)
 				replayed++
 				if !res.Ran {
 					fmt.Printf("   WITNESS-REPLAY-ERROR %s: %s\n", l, res.Err)
 					exit = max(exit, 3)
-				} else if !res.Covers[l] || unexpectedFailures(res.Failed, r.Violations) || res.AssumeFailed {
+				} else if (!res.Covers[l] && spec.ReplayRepeat == 0) || unexpectedFailures(res.Failed, r.Violations) || res.AssumeFailed {
 					fmt.Printf("   ENGINE-MISMATCH witness for cover %q does not reproduce natively (covers=%v failed=%v assumeFailed=%v) dir=%s\n", l, res.Covers, res.Failed, res.AssumeFailed, dir)
 					exit = max(exit, 3)
 				} else {
@@ -362,7 +364,7 @@ type replayResult struct {
 // and runs it on the concrete values of a solver model.
 func nativeReplay(spec *HarnessSpec, dir string, values []uint64, choices []int64, params map[string]int) replayResult {
 	os.MkdirAll(dir, 0755)
-	rp := map[string]interface{}{"values": values, "choices": choices, "params": params, "harness": spec.Name, "pkg": spec.Pkg, "files": spec.Files}
+	rp := map[string]interface{}{"values": values, "choices": choices, "params": params, "harness": spec.Name, "pkg": spec.Pkg, "files": spec.Files, "repeat": spec.ReplayRepeat}
 	os.WriteFile(filepath.Join(dir, "replay.json"), mustJSON(rp), 0644)
 	return runReplayDir(dir)
 }
@@ -378,6 +380,7 @@ func runReplayDir(dir string) replayResult {
 		Harness string   `json:"harness"`
 		Pkg     string   `json:"pkg"`
 		Files   []string `json:"files"`
+		Repeat  int      `json:"repeat"`
 	}
 	json.Unmarshal(b, &rp)
 	spec := &HarnessSpec{Name: rp.Harness, Pkg: rp.Pkg, Files: rp.Files}
@@ -414,6 +417,9 @@ func TestVrtReplay(t *testing.T) {
 		"-run", "^TestVrtReplay$", "-timeout", "120s", "-v", "./"+spec.Pkg)
 	cmd.Dir = "/repo"
 	cmd.Env = append(os.Environ(), "GOFLAGS=-mod=mod", "GOPROXY=off", "GOSUMDB=off", "GOTOOLCHAIN=local", "VRT_REPLAY="+filepath.Join(dir, "replay.json"))
+	if rp.Repeat > 0 {
+		cmd.Env = append(cmd.Env, fmt.Sprintf("VRT_REPEAT=%d", rp.Repeat))
+	}
 	out, _ := cmd.CombinedOutput()
 	res.Output = string(out)
 	os.WriteFile(filepath.Join(dir, "native_output.txt"), out, 0644)
